@@ -398,6 +398,30 @@ func genC16(g *gen) {
 			g.check(string(unhex(v)) == "0x"+hex.EncodeToString(coreA[:]), "dil-addr-wrapper", "GetDilithiumAddressFromPK wrapper != '0x'+hex(core)", "js.daddr "+hx([]byte(hp)))
 		}
 	}
+	// a string that is not hexadecimal but whose longest hexadecimal prefix is a genuine signature / key
+	// (hex.DecodeString returns the bytes decoded before the error): must be refused, not "verified"
+	g.note("non-hex strings with a genuine hexadecimal prefix")
+	{
+		msg := []byte("prefix")
+		xs, _ := x.Sign(msg)
+		ds, _ := d.Sign(msg)
+		hxs, hds := hex.EncodeToString(xs), hex.EncodeToString(ds[:])
+		hxp, hdp := hex.EncodeToString(xpk[:]), hex.EncodeToString(dpk[:])
+		for _, tail := range []string{"zz", "\n", " ", "0", "g0", "0x"} {
+			for _, pre := range []string{"", "0x"} {
+				o1 := g.op("js.xverify %s %s %s", hx(msg), hx([]byte(pre+hxs+tail)), hx([]byte(hxp)))
+				g.check(o1 == "ok false", "nonhex-xverify", "XMSSVerify accepted a signature string that is not hexadecimal (genuine signature + "+fmt.Sprintf("%q", tail)+")", g.ops[len(g.ops)-1])
+				o2 := g.op("js.xverify %s %s %s", hx(msg), hx([]byte(hxs)), hx([]byte(pre+hxp+tail)))
+				g.check(o2 == "ok false", "nonhex-xverify", "XMSSVerify accepted a public-key string that is not hexadecimal (genuine key + "+fmt.Sprintf("%q", tail)+")", g.ops[len(g.ops)-1])
+				o3 := g.op("js.dverify %s %s %s", hx(msg), hx([]byte(pre+hds+tail)), hx([]byte(hdp)))
+				g.check(o3 == "ok false", "nonhex-dverify", "DilithiumVerify accepted a signature string that is not hexadecimal (genuine signature + "+fmt.Sprintf("%q", tail)+")", g.ops[len(g.ops)-1])
+				o4 := g.op("js.dverify %s %s %s", hx(msg), hx([]byte(hds)), hx([]byte(pre+hdp+tail)))
+				g.check(o4 == "ok false", "nonhex-dverify", "DilithiumVerify accepted a public-key string that is not hexadecimal (genuine key + "+fmt.Sprintf("%q", tail)+")", g.ops[len(g.ops)-1])
+				g.check(g.op("js.xaddr %s", hx([]byte(pre+hxp+tail))) == "ok -", "nonhex-xaddr", "GetXMSSAddressFromPK(genuine key + garbage) did not return the empty string", g.ops[len(g.ops)-1])
+				g.check(g.op("js.daddr %s", hx([]byte(pre+hdp+tail))) == "ok -", "nonhex-daddr", "GetDilithiumAddressFromPK(genuine key + garbage) did not return the empty string", g.ops[len(g.ops)-1])
+			}
+		}
+	}
 	g.note("strings that are not valid hexadecimal")
 	h67 := hex.EncodeToString(xpk[:])
 	bads := []string{"zz", "0x", "0xg0", "abc", "0xabc", h67[:len(h67)-1], "0x" + h67[:len(h67)-1], h67[:40] + "g" + h67[41:], " " + h67, h67 + " ", "0X" + h67, "0x0x" + h67, "é", "\x00\x00"}
